@@ -300,6 +300,19 @@ def _theme_twice(sp):
         clr.append(child)
 
 
+def _textbox_action_run(prs, s, rnd):
+    from pptx.oxml import parse_xml
+
+    _textbox(prs, s, rnd)
+    tf = s.shapes[0].text_frame
+    r = tf.paragraphs[0].runs[0] if tf.paragraphs[0].runs else tf.paragraphs[0].add_run()
+    r.text = r.text or "next"
+    rPr = r._r.get_or_add_rPr()
+    rPr.append(parse_xml(
+        '<a:hlinkClick xmlns:a="http://schemas.openxmlformats.org/drawingml/2006/main" '
+        'xmlns:r="http://schemas.openxmlformats.org/officeDocument/2006/relationships" r:id="" action="ppaction://hlinkshowjump?jump=nextslide"/>'))
+
+
 def _line_chart_labels(prs, s, rnd):
     _chart(XL_CHART_TYPE.BAR_CLUSTERED)(prs, s, rnd)
     s.shapes[0].chart.plots[0].has_data_labels = True
@@ -324,6 +337,7 @@ FIXTURES = {
     "autoshape": (6, _shape()),
     "arrow": (6, _shape(MSO_SHAPE.LEFT_RIGHT_ARROW)),
     "textbox": (6, _textbox),
+    "textbox_action_run": (6, _textbox_action_run),
     "picture": (6, _picture),
     "placeholder": (1, lambda prs, s, rnd: None),
     "table": (6, _table),
@@ -622,6 +636,8 @@ ROWS = [
     R("DataLabels.number_format", "bar_labels", PLOT + ".data_labels", strings(kind="numfmt"), group="dl", corpus="datalabels", couples=_numfmt_couple("DataLabels.number_format_is_linked"), cls="string"),
     R("Hyperlink.address", "autoshape", SP + ".click_action.hyperlink", strings(none=True, kind="url"), none=None, group="click", corpus="click", cls="string"),
     R("_Hyperlink.address", "textbox", TF + ".paragraphs[0].runs[0].hyperlink", strings(none=True, kind="url"), none=None, group="hlink", corpus="run_hlink", cls="string"),
+    # ... on a run that carries one of PowerPoint's action links (r:id="" and an action verb: no relationship, no URL)
+    R("_Hyperlink.address@action-run", "textbox_action_run", TF + ".paragraphs[0].runs[0].hyperlink", strings(none=True, kind="url"), none=None, group="hlinkact", cls="string"),
     # ---- colours --------------------------------------------------------------------------------------------
     R("ColorFormat.rgb", "solid", SP + ".fill.fore_color", colours, covers=[("_SRgbColor", "rgb")], get=_safe_color_get("rgb"), group="color", couples=_rgb_couple, cls="colour"),
     R("ColorFormat.rgb@font", "textbox", FONT + ".color", colours, get=_safe_color_get("rgb"), cls="colour", prime=NOPRIME),
